@@ -44,6 +44,9 @@ type c02Step struct {
 }
 
 type c02Case struct {
+	SmartCard bool    `json:"smartcard_auth_also_enabled,omitempty"`
+	Caps      uint16  `json:"client_caps,omitempty"` // handshake capability value of the tunnels (inp level)
+	IdleS     int     `json:"idle_before_tunnel_create_s,omitempty"`
 	Steps []c02Step `json:"steps"`
 	Level string    `json:"level"` // fn | inp
 	Kind  string    `json:"transport,omitempty"`
@@ -80,6 +83,11 @@ func genC02(t *rapid.T, level string) c02Case {
 	c := c02Case{Level: level}
 	if level == "inp" {
 		c.Kind = genKind(t)
+		c.SmartCard = rapid.Bool().Draw(t, "smartcard")
+		c.Caps = 2
+		if c.SmartCard {
+			c.Caps = uint16(rapid.IntRange(1, 3).Draw(t, "clientCaps")) // smart card only, cookie only, both
+		}
 	}
 	n := rapid.IntRange(1, 6).Draw(t, "nsteps")
 	for i := 0; i < n; i++ {
@@ -310,7 +318,11 @@ func refVerdict(tok string, key []byte, now time.Time, idpState func(string) str
 
 func runC02(c c02Case) *Violation {
 	w := W()
-	o := gwOpts{TokenAuth: true, HostSelection: "roundrobin", Hosts: []string{w.addr("A")}, VerifyIP: true}
+	o := gwOpts{TokenAuth: true, SmartCard: c.SmartCard, HostSelection: "roundrobin", Hosts: []string{w.addr("A")}, VerifyIP: true}
+	caps := c.Caps
+	if caps == 0 {
+		caps = 2
+	}
 	return withGateway(mkGateway(o), func() *Violation {
 		ats := [2]string{w.IdP.NewAccessToken("ok:" + w.User), w.IdP.NewAccessToken("ok:" + w.User)}
 		for i, st := range c.Steps {
@@ -340,7 +352,7 @@ func runC02(c c02Case) *Violation {
 				if strings.ContainsRune(tok, 0) {
 					continue // a NUL cannot travel in the NUL-terminated cookie field
 				}
-				r := sess.Run(c.Kind, gwc.Target{Addr: inp().Addr}, [][]byte{tsgu.Handshake(1, 0, 0, 2), tsgu.TunnelCreate(tok, true), tsgu.Handshake(0, 0, 0, 2)})
+				r := sess.Run(c.Kind, gwc.Target{Addr: inp().Addr}, [][]byte{tsgu.Handshake(1, 0, 0, caps), tsgu.TunnelCreate(tok, true), tsgu.Handshake(0, 0, 0, caps)})
 				resps, err := sess.Decode(r.Pkts)
 				if err != nil || len(resps) < 2 || resps[1].Type != tsgu.PktTunnelResponse {
 					return viol("c02/no-tunnel-response", "step %d: no tunnel response: %v %v", i, err, resps)
@@ -523,4 +535,48 @@ func mutateText(valid string, k c02Tok) string {
 		return valid[:k.Pos%len(valid)]
 	}
 	return valid
+}
+
+// ---- expiry is judged when the cookie is presented, not when the connection was opened ----
+
+type c02Idle struct {
+	ExpAtConnect int    `json:"exp_relative_to_connect_s"` // e.g. -56: within the leeway when the websocket opens
+	IdleS        int    `json:"idle_s"`
+	Kind         string `json:"transport"`
+}
+
+func TestC02_IDLE(t *testing.T) {
+	runProp(t, "C02_IDLE", func(t *rapid.T) c02Idle {
+		return c02Idle{ExpAtConnect: rapid.SampledFrom([]int{-50, -49}).Draw(t, "exp"), IdleS: rapid.SampledFrom([]int{15, 16}).Draw(t, "idle"), Kind: genKind(t)}
+	}, func(c c02Idle) (bool, []string) { return true, []string{"kind=" + c.Kind} }, func(c c02Idle) *Violation {
+		w := W()
+		o := gwOpts{TokenAuth: true, HostSelection: "roundrobin", Hosts: []string{w.addr("A")}, VerifyIP: true}
+		return withGateway(mkGateway(o), func() *Violation {
+			at := w.IdP.NewAccessToken("ok:" + w.User)
+			conn, err := gwc.Dial(c.Kind, gwc.Target{Addr: inp().Addr}, sess.NewConnID())
+			if err != nil {
+				return viol("c02/open", "%v", err)
+			}
+			defer conn.Close()
+			tok := jwx.MintHS256(cookieClaims(w.addr("A"), "127.0.0.1", at, w.User, time.Now().Add(time.Duration(c.ExpAtConnect)*time.Second)), w.Key)
+			// control: at this moment the cookie is still within the leeway
+			ctl := sess.Run(c.Kind, gwc.Target{Addr: inp().Addr}, [][]byte{tsgu.Handshake(1, 0, 0, 2), tsgu.TunnelCreate(tok, true), tsgu.Handshake(0, 0, 0, 2)})
+			if rs, _ := sess.Decode(ctl.Pkts); len(rs) < 2 || rs[1].Status != 0 {
+				return viol("c02/refused-valid/within-leeway", "a cookie %d s past expiry (inside the one-minute leeway) was refused: %v", -c.ExpAtConnect, rs)
+			}
+			conn.Send(tsgu.Handshake(1, 0, 0, 2))
+			time.Sleep(time.Duration(c.IdleS) * time.Second)
+			conn.Send(tsgu.TunnelCreate(tok, true))
+			conn.Send(tsgu.Handshake(0, 0, 0, 2))
+			r := sess.Collect(conn, sess.EndWait)
+			rs, derr := sess.Decode(r.Pkts)
+			if derr != nil || len(rs) < 2 || rs[1].Type != tsgu.PktTunnelResponse {
+				return viol("c02/no-tunnel-response", "%v %v", derr, rs)
+			}
+			if rs[1].Status == 0 {
+				return viol("c02/accepted/expired-on-idle-connection", "a cookie that is %d s past its expiry when presented (connection opened %d s earlier, when it was still inside the leeway) was accepted", -c.ExpAtConnect+c.IdleS, c.IdleS)
+			}
+			return nil
+		})
+	})
 }
